@@ -9,10 +9,10 @@
   2. The same specifications with the history kept are the case generators: every terminal state is printed as JSON
      (stream, endpoint, segment sizes / frame facts / script) and rendered to bytes by the fixed table below.
   3. harness/drv_ws.cpp executes the cases on the real WebSocketFrame (exact-size heap buffers, also ASan+UBSan), on a
-     real WebSocketServer (real upgrade over loopback, segments handed to onUpgradedData by a subclass or written to the
-     socket) and on a real WebSocketClient (friend hook into handleData, or a scripted raw server) and records what was
-     delivered / answered / allocated.  harness/drv_s_wsclose.cpp runs the racing sends under the deterministic
-     scheduler.
+     real WebSocketServer (real upgrade over loopback, segments handed to onUpgradedData by a subclass, written to the
+     socket, or glued to the upgrade request) and on a real WebSocketClient (friend hook into handleData, or a scripted
+     raw server) and records what was delivered / answered / allocated.  harness/drv_s_wsclose.cpp runs the racing sends
+     under the deterministic scheduler (seeded random schedules + DFS with <= 2 preemptions).
   4. TLC validates the recording against spec/ws/WsFramingTrace.tla (Abs); deviations it recognises are classified
      through known_findings.json by (deviation action, arguments); everything else is a VIOLATION.
 """
@@ -52,8 +52,8 @@ def profiles(thorough):
     """name -> (constants of the exhaustive run, list of overrides for the generation runs)"""
     ps = {}
     # structure: fragments, control frames in between, close
-    ps["shape"] = (profile(MaxFrames=4 if thorough else 3, CtlLens=sset(["0", "1"]) if thorough else sset(["1"])),
-                   [dict(MaxCuts=1), dict(MaxCuts=2, MaxFrames=3, CtlLens=sset(["1"]))] if thorough else [dict(MaxCuts=1)])
+    ps["shape"] = (profile(MaxFrames=4 if thorough else 3),
+                   [dict(MaxCuts=1), dict(MaxCuts=2, MaxFrames=3, CtlLens=sset(["0", "1"]))] if thorough else [dict(MaxCuts=1)])
     # every length encoding, one message of <= 2 frames (+ a ping), cuts inside header / extended length / mask / payload
     lens = ["0", "1", "125", "126", "65535", "65536"]
     ps["len"] = (profile(MaxFrames=2, MaxMsg=262144, DataLens=sset(lens), CtlOps="{9}", CtlLens=sset(["0", "125"])),
@@ -340,6 +340,12 @@ def judge(ck, execs, results, name, allow_dev=True, rerun_binary="drv_ws"):
         for rej, dev in ex.map(work, range(nchunks)):
             rejected += rej
             devhits += dev
+    # a driver process that died while executing a case (assertion, signal, sanitizer report, uncaught exception) is a
+    # verdict of its own: the trace specification passes over the Crashed marker, the check reports it
+    have = {i for i, _ in rejected}
+    for i, evs in enumerate(results):
+        if i not in have and any(e["e"] == "Crashed" for e in evs):
+            rejected.append((i, "the driver process died while executing this case"))
     return rejected, devhits
 
 
@@ -393,7 +399,7 @@ def check_infra(results, what):
                 raise vf.Infra("%s: harness could not set the case up: %s" % (what, e.get("why")))
             if e["e"] == "HarnessTimeout":
                 raise vf.Infra("%s: a driver batch exceeded the wall-clock limit" % what)
-            if e["e"] in ("Run", "Script") and e.get("to") and not (e.get("feed") == "w" and e.get("ep") == "c"):
+            if e["e"] in ("Run", "Script") and e.get("to") and not (e.get("feed") == "w" and e.get("ep") == "c") and e.get("feed") != "g":
                 raise vf.Infra("%s: timeout while reading the endpoint's answers (%s)" % (what, jd(e)[:200]))
 
 
@@ -426,9 +432,6 @@ def stream_execs(ck, cases, thorough):
         for c in cs:
             ep = c["ep"]
             segs = c["segs"]
-            if has_junk:
-                # the junk part is fed in equal reads: give the driver the prefix cuts and then the chunk size
-                pass
             spec = ",".join(str(x) for x in segs)
             if (ep, spec) in seen:
                 continue
@@ -448,6 +451,9 @@ def stream_execs(ck, cases, thorough):
             if (ep == "s" and all(c.get("judged") for c in cs) or ep == "c" and alive) and ck.rng.random() < (0.25 if thorough else 0.12):
                 c = ck.rng.choice([x for x in cs if x["ep"] == ep])
                 lines.append("R %s w %d %s =" % (ep, mx, ",".join(str(x) for x in c["segs"]))); preds.append(c); nruns += 1
+            # in the same write as the upgrade request (http_server.hpp buffer-drain path)
+            if ep == "s" and all(c.get("judged") for c in cs) and nbytes[ep] <= 1200 and ck.rng.random() < (0.3 if thorough else 0.2):
+                lines.append("R s g %d w =" % mx); preds.append(None); nruns += 1
         x = Exec("stream", lines, {"frames": [[f["op"], f["fin"], f["lc"], f["pc"], f.get("kind", "")] for f in frames]}, nruns)
         x.preds = preds
         x.frames = frames
@@ -503,6 +509,41 @@ def script_execs(cases):
     return execs
 
 
+def crosscheck_rendering(cases):
+    """set-up cross-check (never a verdict): the payload classes are an abstraction of bytes; for every generated text stream
+    the rendered bytes of each complete text message must be UTF-8 exactly when the specification's class model says so
+    (python's strict decoder is the reference here)"""
+    seen = set()
+    for c in cases:
+        if not c.get("judged"):
+            continue
+        key = jd(c["fr"])
+        if key in seen:
+            continue
+        seen.add(key)
+        cur, kind, nvalid = None, None, 0
+        for i, f in enumerate(c["fr"]):
+            if f["op"] in (1, 2):
+                cur, kind = bytearray(), f["op"]
+            if f["op"] in (0, 1, 2) and cur is not None:
+                cur += payload(f["pc"], f["len"], i)
+                if f["fin"]:
+                    if kind == 1:
+                        try:
+                            bytes(cur).decode("utf-8", "strict")
+                            nvalid += 1
+                        except UnicodeDecodeError:
+                            pass
+                    cur = None
+            if f["op"] == 8:
+                break
+        model = len([m for m in c["pmsgs"] if m["k"] == "t"])
+        if model != nvalid:
+            raise vf.Infra("rendering table and the UTF-8 class model of WsAbs.tla disagree on %s: %d valid text messages by the "
+                           "bytes, %d by the model" % (jd([[f["op"], f["fin"], f["lc"], f["pc"]] for f in c["fr"]]), nvalid, model))
+    return len(seen)
+
+
 # --------------------------------------------------------------------------------------------- the check
 def tlc_jobs(ck, jobs, max_workers=6):
     """jobs: (tag, module, cfg, kwargs) -> results in order"""
@@ -532,6 +573,17 @@ def load_local_known(ck):
 
 
 def run(ck):
+    try:
+        run_all(ck)
+    except vf.Infra as e:
+        # an infrastructure problem in a later phase must not hide violations found before it
+        if not ck.violations:
+            raise
+        ck.note("stopped early after violations had been found: %s" % str(e)[:300])
+    ck.nontrivial = len(getattr(ck, "nontrivial_keys", ()))
+
+
+def run_all(ck):
     thorough = ck.tier == "thorough"
     load_local_known(ck)
     ck.have_race = os.path.exists(os.path.join(vf.HARNESS, "drv_s_wsclose.cpp"))
@@ -555,6 +607,11 @@ def run(ck):
         c = dict(consts)
         if name != "utf8":
             c["MaxCuts"] = 99                    # exhaustive runs: every segmentation
+        same = len(gover) == 1 and dict(c, **gover[0]) == c      # generation = the exhaustive run itself (no free cuts)
+        if same:
+            jobs.append(("mcgen_" + name, mod, cfg_for(ck, "mcgen_" + name, dict(c, Emit=True), INVS + ["InvEmit"]),
+                         dict(workers=3, coverage=True, timeout=1500)))
+            continue
         jobs.append(("mc_" + name, mod, cfg_for(ck, "mc_" + name, c, INVS, view="ViewNoHist"), dict(workers=3, coverage=True, timeout=1500)))
         for gi, go in enumerate(gover):
             g = dict(consts); g.update(go); g["Emit"] = True
@@ -596,7 +653,11 @@ def run(ck):
             rp = ck.save_replay("impl_" + tag, {"tlc.out": r.out[-20000:]})
             ck.violation("the Impl specification (design with all deviation flags off) violates %s in %s" % (r.violated, tag), rp)
             continue
-        if tag.startswith("mc_") and tag != "mc_codec":
+        if tag.startswith("mcgen_"):
+            account(ck, r, "WsFraming.")
+            stream_cases.setdefault(tag[6:], []).extend(cases_of(r))
+            ck.note("TLC exhaustive + generator %s: %s, %d cases" % (tag, r.summary(), len(stream_cases[tag[6:]])))
+        elif tag.startswith("mc_") and tag != "mc_codec":
             account(ck, r, "WsFraming.")
             ck.note("TLC exhaustive %s: %s" % (tag, r.summary()))
         elif tag == "mc_codec":
@@ -634,6 +695,8 @@ def run(ck):
         if k not in pcs:
             raise vf.Infra("generator produced no text frame of payload class " + k)
 
+    nx = sum(crosscheck_rendering(stream_cases[n]) for n in ("utf8", "shape"))
+    ck.note("set-up cross-check: rendered bytes of %d text streams agree with the UTF-8 class model" % nx)
     # ---- 2. codec + raw parse on the real WebSocketFrame (plain and ASan+UBSan)
     t_ph = time.time()
     cx = codec_execs(codec_cases)
@@ -669,17 +732,22 @@ def run(ck):
     check_infra(res_s, "stream")
     # a through-the-socket run on the client ends with a ping the client answers; if it does not (it failed the connection
     # where the model did not expect it) the run is inconclusive: the same stream is judged in its direct runs
+    # (likewise a glued run in which the bytes behind the upgrade request did not reach the upgraded handler in one piece)
     inconcl = 0
+    nglued = 0
+
+    def inconclusive(e):
+        return e["e"] == "Run" and e["to"] and (e["feed"] == "g" or (e["feed"] == "w" and e["ep"] == "c"))
     for x, evs in zip(all_sx, res_s):
         runs = [e for e in evs if e["e"] == "Run"]
-        bad = [k for k, e in enumerate(runs) if e["feed"] == "w" and e["ep"] == "c" and e["to"]]
+        nglued += sum(1 for e in runs if e["feed"] == "g" and not e["to"])
+        bad = [k for k, e in enumerate(runs) if inconclusive(e)]
         if bad:
             inconcl += len(bad)
-            keep = [e for e in evs if not (e["e"] == "Run" and e["feed"] == "w" and e["ep"] == "c" and e["to"])]
-            evs[:] = keep
+            evs[:] = [e for e in evs if not inconclusive(e)]
             x.preds = [p for k, p in enumerate(x.preds) if k not in bad]
-    if inconcl:
-        ck.note("streams: %d through-the-socket client runs were inconclusive (no answer to the final ping) and are not judged" % inconcl)
+    ck.note("streams: %d runs glued to the upgrade request; %d through-the-socket / glued runs were inconclusive (no answer to the "
+            "final ping / bytes not handed over in one piece) and are not judged" % (nglued, inconcl))
     nruns = sum(1 for evs in res_s for e in evs if e["e"] == "Run")
     ck.evaluations += nruns
     drift = 0
@@ -904,7 +972,10 @@ def oracle_selftest(ck, sx, res_s, cx, res_c):
                                        {"op": 1, "fin": True, "n": 1, "h": 98, "m": e["ep"] == "c", "code": 0}]), "data frame after close")
     mutate(lambda e: [o.update(m=not o["m"]) for o in e["outs"]], "wrong masking direction")
     # codec
-    ci = next(i for i, x in enumerate(cx) if x.kind == "codec" and x.info["lc"] == "126" and x.info["op"] == 2)
+    ci = next((i for i, x in enumerate(cx) if x.kind == "codec" and x.info["lc"] == "126" and x.info["op"] == 2
+               and any(e["e"] == "Codec" for e in res_c[i])), None)
+    if ci is None:
+        raise vf.Infra("self-test: no executed codec case to corrupt")
     for label, fn in (("consumed differs", lambda e: e.update(consumed=e["consumed"] + 1)),
                       ("frame not equal", lambda e: e.update(eq=False)),
                       ("trailing bytes swallowed", lambda e: e.update(tconsumed=e["tconsumed"] + 3)),
